@@ -40,23 +40,26 @@ theorem Mux_HandleRPC : Generated.fp_drpcmux_handle_rpc_Mux_HandleRPC = Expected
 
 /-! the model's affixes are the literals of the source (via the reviewed expectations) -/
 def s (i : Gen.Ident) : String := "s:" ++ String.ofList i
+/-- the fingerprint without its identifier-use entries (`id:…`) -/
+def isId (x : String) : Bool := match x.toList with | 'i' :: 'd' :: ':' :: _ => true | _ => false
+def shape (l : List String) : List String := l.filter fun x => !isId x
 
-theorem affix_EncodingName : Expected.fp_cmd_protoc_gen_go_drpc_main_drpc_EncodingName = ["return", "+", s Gen.pEncoding] := by decide
-theorem affix_ClientIface : Expected.fp_cmd_protoc_gen_go_drpc_main_drpc_ClientIface = ["return", "+", "+", s Gen.pDRPC, s Gen.sClient] := by decide
-theorem affix_ClientImpl : Expected.fp_cmd_protoc_gen_go_drpc_main_drpc_ClientImpl = ["return", "+", "+", s Gen.pdrpc, s Gen.sClient] := by decide
-theorem affix_ServerIface : Expected.fp_cmd_protoc_gen_go_drpc_main_drpc_ServerIface = ["return", "+", "+", s Gen.pDRPC, s Gen.sServer] := by decide
-theorem affix_ServerUnimpl : Expected.fp_cmd_protoc_gen_go_drpc_main_drpc_ServerUnimpl = ["return", "+", "+", s Gen.pDRPC, s Gen.sUnimpl] := by decide
-theorem affix_ServerDesc : Expected.fp_cmd_protoc_gen_go_drpc_main_drpc_ServerDesc = ["return", "+", "+", s Gen.pDRPC, s Gen.sDesc] := by decide
-theorem affix_ClientStreamIface : Expected.fp_cmd_protoc_gen_go_drpc_main_drpc_ClientStreamIface =
+theorem affix_EncodingName : shape Expected.fp_cmd_protoc_gen_go_drpc_main_drpc_EncodingName = ["return", "+", s Gen.pEncoding] := by decide
+theorem affix_ClientIface : shape Expected.fp_cmd_protoc_gen_go_drpc_main_drpc_ClientIface = ["return", "+", "+", s Gen.pDRPC, s Gen.sClient] := by decide
+theorem affix_ClientImpl : shape Expected.fp_cmd_protoc_gen_go_drpc_main_drpc_ClientImpl = ["return", "+", "+", s Gen.pdrpc, s Gen.sClient] := by decide
+theorem affix_ServerIface : shape Expected.fp_cmd_protoc_gen_go_drpc_main_drpc_ServerIface = ["return", "+", "+", s Gen.pDRPC, s Gen.sServer] := by decide
+theorem affix_ServerUnimpl : shape Expected.fp_cmd_protoc_gen_go_drpc_main_drpc_ServerUnimpl = ["return", "+", "+", s Gen.pDRPC, s Gen.sUnimpl] := by decide
+theorem affix_ServerDesc : shape Expected.fp_cmd_protoc_gen_go_drpc_main_drpc_ServerDesc = ["return", "+", "+", s Gen.pDRPC, s Gen.sDesc] := by decide
+theorem affix_ClientStreamIface : shape Expected.fp_cmd_protoc_gen_go_drpc_main_drpc_ClientStreamIface =
     ["return", "+", "+", "+", "+", s Gen.pDRPC, "call:strings.ReplaceAll", "s:_", "s:__", "s:_", "call:strings.ReplaceAll", "s:_", "s:__", s Gen.sClient] := by decide
-theorem affix_ClientStreamImpl : Expected.fp_cmd_protoc_gen_go_drpc_main_drpc_ClientStreamImpl =
+theorem affix_ClientStreamImpl : shape Expected.fp_cmd_protoc_gen_go_drpc_main_drpc_ClientStreamImpl =
     ["return", "+", "+", "+", "+", s Gen.pdrpc, "call:strings.ReplaceAll", "s:_", "s:__", "s:_", "call:strings.ReplaceAll", "s:_", "s:__", s Gen.sClient] := by decide
-theorem affix_ServerStreamIface : Expected.fp_cmd_protoc_gen_go_drpc_main_drpc_ServerStreamIface =
+theorem affix_ServerStreamIface : shape Expected.fp_cmd_protoc_gen_go_drpc_main_drpc_ServerStreamIface =
     ["return", "+", "+", "+", "+", s Gen.pDRPC, "call:strings.ReplaceAll", "s:_", "s:__", "s:_", "call:strings.ReplaceAll", "s:_", "s:__", s Gen.sStream] := by decide
-theorem affix_ServerStreamImpl : Expected.fp_cmd_protoc_gen_go_drpc_main_drpc_ServerStreamImpl =
+theorem affix_ServerStreamImpl : shape Expected.fp_cmd_protoc_gen_go_drpc_main_drpc_ServerStreamImpl =
     ["return", "+", "+", "+", "+", s Gen.pdrpc, "call:strings.ReplaceAll", "s:_", "s:__", "s:_", "call:strings.ReplaceAll", "s:_", "s:__", s Gen.sStream] := by decide
 /-- `/%s/%s` over FullName and Name -/
-theorem affix_RPCGoString : Expected.fp_cmd_protoc_gen_go_drpc_main_drpc_RPCGoString =
+theorem affix_RPCGoString : shape Expected.fp_cmd_protoc_gen_go_drpc_main_drpc_RPCGoString =
     ["return", "call:strconv.Quote", "call:fmt.Sprintf", "s:/%s/%s", "call:method.Parent.Desc.FullName", "call:method.Desc.Name"] := by decide
 set_option maxRecDepth 16384 in
 /-- the literals `New` and `DRPCRegister` of generateService, and both call sites of RPCGoString -/
